@@ -32,6 +32,8 @@ Plan traverse_generate(uint64_t base, const std::string &prop, uint64_t index, i
     else p.max_depth = 1 + (int)rd.below(40);
     p.prefill = rd.chance(1, 2) ? (rd.next() | 1) : 0;
     if (prop != "C16" && ro.chance(1, 5)) p.par["nocb"] = 1;
+    if (prop == "C16" && r.fork("nocb").chance(1, 4)) p.par["nocb"] = 1;   // termination without a callback to count steps: decided by the CPU-time watchdog alone
+    { Rng rl = r.fork("layout"); if (rl.chance(1, 2)) p.par["lead"] = 1 + (int64_t)rl.below(15); }     // the message does not start on an allocator boundary
     // fault then recovery: the damaged message is traversed first (until it fails or ends), the stored bytes are repaired in
     // place, the application restarts the parser and traverses again; the verdict of THAT traversal is compared with verify
     if (nf && !pristine.empty() && pristine.size() == p.doc.size() && pristine != p.doc && rf.chance(1, 3)) {
@@ -125,6 +127,7 @@ Result traverse_execute(const Plan &p, const ExecCtx &c) {
         tr.add(fmt("VERIFY(fresh) -> %d e=%s", verify_ok, err_name(b.err)));
     }
     PSession ps(tr, sink, r.cnt);
+    ps.lead = (int)p.P("lead");
     ps.setup(p.max_depth, p.prefill, p.P("recover") ? p.doc2 : p.doc, p.root != 0);
     ps.guard_lookups = false;       // lookups are only issued while the traversal is inside an object
     ps.use_cb = !p.P("nocb");
